@@ -5,7 +5,7 @@
     any interleaving of their steps. *)
 From Coq Require Import List NArith ZArith Bool String.
 From Verif Require Import Sni.SchedSkel Sni.Registry Sni.RegistryProofs Sni.RegistryGen Gen.ServerSkel.
-From Verif Require Import Sni.RegistryKick Sni.RegistryKickProofs Sni.RegistryKey.
+From Verif Require Import Sni.RegistryKick Sni.RegistryKickProofs Sni.RegistryKey Sni.RegistryBracket.
 Import ListNotations.
 Local Open Scope N_scope.
 
@@ -191,6 +191,60 @@ Theorem C15_front_unmap_refuted :
   end.
 Proof. exact front_unmap_refuted. Qed.
 Print Assumptions C15_front_unmap_refuted.
+
+(** ** The registration bracket of ServeBackName (Sni/RegistryBracket.v) *)
+
+(** In the source, no statement stands between the call of upgrade (with the
+    error check of the failed upgrade) and the defer that calls unmap, in the
+    one function that calls upgrade. *)
+Theorem C15_register_unmap_adjacent :
+  gen_register_bracket = [("Server.ServeBackName"%string, [])].
+Proof. exact gen_register_unmap_adjacent. Qed.
+Print Assumptions C15_register_unmap_adjacent.
+
+(** Every way out of a function body of the shape
+    pre; register; mid; defer unmap; post -- where nothing in pre registers
+    and nothing in mid can leave the function -- on which the client was
+    registered runs the unmap, whatever post is. *)
+Theorem C15_registration_bracket : forall pre mid post,
+  existsb is_register pre = false ->
+  forallb falls_through mid = true ->
+  bracket_ok (pre ++ BRegister :: mid ++ BDeferUnmap :: post) = true.
+Proof. exact registration_bracket. Qed.
+Print Assumptions C15_registration_bracket.
+
+(** ... in particular for what the translator extracted from ServeBackName. *)
+Theorem C15_ServeBackName_bracket : forall post,
+  match gen_register_bracket with
+  | [(_, between)] => bracket_ok (bracket_of between post) = true
+  | _ => False
+  end.
+Proof. exact gen_ServeBackName_bracket. Qed.
+Print Assumptions C15_ServeBackName_bracket.
+
+(** The seeded change C15-j, kept as a counter-model: a probe that can return
+    between the registration and the defer.  There is a way out on which the
+    client is registered and the unmap does not run ... *)
+Theorem C15_early_return_bracket_refuted :
+  bracket_ok early_return_body = false /\ In (true, false) (exits early_return_body false false).
+Proof. exact early_return_bracket_refuted. Qed.
+Print Assumptions C15_early_return_bracket_refuted.
+
+(** ... and in the registry model: connection 2 is mapped under name 7
+    (kicking connection 1) and its thread ends without the unmap step.  The
+    name resolves to an ended connection that has no notification at all;
+    that is not a state of the model. *)
+Theorem C15_early_return_refuted :
+  match exec init [AUpgrade 1 7; AConnect 1 5; AUpgrade 2 7] with
+  | Some s =>
+      let s' := return_without_unmap s 2 in
+      lookup_name s' 7 = Some 2 /\
+      (exists th, get 2 (threads s') = Some th /\ th_pc th = P6 /\ live (th_pc th) = false) /\
+      proj 2 (log s') = [] /\ ~ reachable s'
+  | None => False
+  end.
+Proof. exact early_return_refuted. Qed.
+Print Assumptions C15_early_return_refuted.
 
 (** ** The key of the registry is the name itself (Sni/RegistryKey.v) *)
 
